@@ -107,6 +107,8 @@ def run(ctx):
     sk = Em.fn(f.hir_fn("_format_sentence", module=LEXF)["path"], ["fmt", "@sink", "$s"])
     ok = len(sk) == 2 and isinstance(sk[1], tuple) and sk[1][0] == "joinlest" and sk[1][1] == ["$s.punctuation", "$s.stamp", "format_truth($s.truth)"] and sk[0] == "format_term(get_term($s))"
     ctx.ob("L-FIELDS", "lexical sentence = term, punctuation, stamp, truth (in that order)", ok, "%s" % (sk,))
+    import maps
+    maps.rule_U_CHARS(ctx, modules=("impl_lexical::parser",))
     # ---- 2. table laws
     tables.rule_T_PRED(ctx, T)
     tables.rule_T_DISJOINT(ctx, T)
